@@ -558,6 +558,31 @@ func init() {
 					c.NonTrivial("shadow", fmt.Sprintf("%T", x))
 				}
 			}
+			if c.Idx%64 == 17 {
+				// omitempty members whose type has a value-receiver MarshalJSON, one type per kind,
+				// empty and non-empty, as only / first / middle / last member and behind a pointer
+				for si, x := range zoo.OMValues() {
+					if !c.Cur(7700+si, fmt.Sprintf("shapes=core\nomitempty member with a value-receiver MarshalJSON: %T %v", x, x)) {
+						continue
+					}
+					vt := reflect.TypeOf(x)
+					f := reflect.StructField{Name: "V", Type: vt, Tag: `json:"v,omitempty"`}
+					a := reflect.StructField{Name: "A", Type: reflect.TypeOf(0), Tag: `json:"a"`}
+					z := reflect.StructField{Name: "Z", Type: reflect.TypeOf(""), Tag: `json:"z"`}
+					for li, fs := range [][]reflect.StructField{{f}, {f, z}, {a, f, z}, {a, f}} {
+						st := reflect.StructOf(fs)
+						v := reflect.New(st).Elem()
+						v.FieldByName("V").Set(reflect.ValueOf(x))
+						for ci := range encCfgs {
+							encCompare(c, 7700+si, "enc-diff", &encCfgs[ci], fmt.Sprintf("layout%d", li), v.Interface(), st, v, "")
+							if li == 2 {
+								encCompare(c, 7700+si, "enc-diff", &encCfgs[ci], "ptr", v.Addr().Interface(), reflect.PtrTo(st), v.Addr(), "")
+							}
+						}
+					}
+					c.NonTrivial("omitm", fmt.Sprintf("%T%v", x, x))
+				}
+			}
 			if c.Idx%64 == 16 {
 				for si, x := range append(recEmbValues(0), append(recEmbValues(3), recEmbValues(40)...)...) {
 					if !c.Cur(7600+si, fmt.Sprintf("shapes=core\nembedded recursive struct: %T", x)) {
